@@ -406,7 +406,7 @@ static void make_term_ref(const TermSpec& ts, TermRef& t) {
 
 static bool is_ws(unsigned char c, bool skip_nl) { if (c == '\n') return skip_nl; return c == ' ' || c == '\t' || c == '\v' || c == '\f' || c == '\r'; }
 struct OptCombo { bool ws, nl; const char* name; };
-static const OptCombo OPTS[3] = {{true, true, "skip_whitespace,skip_newline"}, {true, false, "skip_whitespace,no-skip_newline"}, {false, true, "no-skip_whitespace"}};
+static const OptCombo OPTS[4] = {{true, true, "skip_whitespace,skip_newline"}, {true, false, "skip_whitespace,no-skip_newline"}, {false, true, "no-skip_whitespace"}, {false, false, "no-skip_whitespace,no-skip_newline"}};   // the README: skip_newline has no effect when whitespace is not skipped
 
 struct Expect { bool ok = true; std::vector<TokObs> toks; int err_off = -1, err_line = 0, err_col = 0; unsigned char err_byte = 0; bool zero_len = false; };
 static Expect ref_tokenize(std::vector<TermRef>& refs, const std::string& in, const OptCombo& oc) {
@@ -494,7 +494,7 @@ template<class P> static void run_termset(P& p, const std::vector<TermSpec>& ts,
     if (!prodwhy.empty()) { add_viol("C04", "merged-automaton-wrong", subject, "", prodwhy, tkey + ":" + hex8(fnv(prodwhy))); reported_known = true; }
     else if (!c10) ctr["C04.termsets_equivalent_all_lengths"]++;
     if (nullable) ctr["termsets_with_nullable_term"]++;
-    for (int oi = 0; oi < 3; ++oi) {
+    for (int oi = 0; oi < 4; ++oi) {
         if (cfg.opt >= 0 && oi != cfg.opt) continue;
         const OptCombo& oc = OPTS[oi];
         for (const std::string& in : inputs) {
